@@ -12,13 +12,15 @@ CFG = dict(
     props="Props/C04.v",
     theorems=["C04_base64_roundtrip", "C04_codec_exact", "C04_values_kept", "C04_no_invention",
               "C04_values_general", "C04_flush_headers", "C04_flush_trailers", "C04_sys_request", "C04_sys_request_exact",
-              "C04_sys_stream_header", "C04_sys_stream_trailer", "C04_sys_unary", "C04_sys_values", "C04_sys_no_invention"],
+              "C04_sys_stream_header", "C04_sys_stream_trailer", "C04_sys_unary", "C04_sys_values", "C04_sys_no_invention",
+              "C04_unary_program", "C04_faults_headers", "C04_faults_headers_lost", "C04_faults_sendheader_retried", "C04_faults_trailer_once"],
     go_tags="st",
     imports=["Base.Bytes", "Model.Base64", "Model.Meta", "Model.SrvStream", "Model.MetaSys", "Check.C04c"],
     case_type="c04case",
     find_bad_from="find_bad_from",
     rigs=[dict(test="TestC04", timeout_quick=300, timeout_thorough=1200),
           dict(test="TestC04StreamOpsBad", timeout_quick=300, timeout_thorough=1200),
+          dict(test="TestC04StreamFaults", timeout_quick=300, timeout_thorough=1200),
           dict(test="TestC04Sys", timeout_quick=300, timeout_thorough=1200),
           dict(test="TestC04UnarySeq", timeout_quick=300, timeout_thorough=1200),
           dict(test="TestGenEquivC04", timeout_quick=300, timeout_thorough=300)],
@@ -30,6 +32,8 @@ CFG = dict(
                  "2": "implementation output violates the property predicate (Check/C04c.v: spec_codec / spec_stream / accepted tokens / "
                       "spec_same: same keys lower-cased, same values in per-key order, byte-exact, nothing else)",
                  "3": "header metadata on an envelope after the first one",
+                 "5": "server stream object under write failures: more than one delivered envelope carries header metadata, or the one that "
+                      "does lacks a retained map, or two trailer envelopes were delivered (spec_faults)",
                  "4": "unary: response metadata that is on the wire does not reach the caller through the API (grpc.Header / grpc.Trailer "
                       "call options: Invoke panics or delivers nothing)"},
     rule="codec: seeded metadata sets (0..16 keys over the gRPC key alphabet in any letter case, -bin suffix in 4 case variants, "
@@ -37,7 +41,8 @@ CFG = dict(
          "joined) through ToKeyValue then ToMetadata; base64 decoder on fixed + random malformed strings (CR/LF, padding, std "
          "alphabet, raw); ToMetadata on mixed lists; server stream object: ALL programs of length<=4 (thorough: 5) over "
          "{SetHeader,SendHeader,SetTrailer,SendMsg,SendTrailer} plus random longer ones, and ALL programs of length<=4 that contain a "
-         "SendMsg whose value the codec rejects; unary collector: all programs of "
+         "SendMsg whose value the codec rejects; ALL programs of length<=3 (thorough 4) with the transport write failing at EVERY non-empty "
+         "subset of their writing calls; unary collector: all programs of "
          "length<=5; whole RPCs in bubbles (real client, link, real server): {unary, client-, server-, bidi stream} x caller metadata "
          "(0..16 keys, any letter case, 1..4 values, -bin values with NUL/0xFF/empty; attached through the outgoing context, a client "
          "interceptor, or both; with and without a deadline) x handler programs of 0..5 calls over {SetHeader, SendHeader, SetTrailer, "
